@@ -33,7 +33,18 @@ def main(argv):
             chk.extra["tie_coverage"] = tiecov.coverage(pid)
         except Exception as e:       # a report, never a verdict
             chk.extra["tie_coverage"] = dict(error=str(e)[:200])
-        mod.run(chk)
+        from . import implcov
+        recording = implcov.start()
+        try:
+            mod.run(chk)
+        finally:
+            if recording:
+                implcov.stop()
+        if recording:
+            try:
+                chk.extra["impl_coverage"] = implcov.report(pid)
+            except Exception as e:   # a report, never a verdict
+                chk.extra["impl_coverage"] = dict(error=str(e)[:200])
         return chk.finish()
     except core.InfraError as e:
         print("INFRA-ERROR property=%s %s" % (pid, e))
